@@ -32,7 +32,7 @@ var interpretable = []string{
 	"strings", "strconv", "sort", "slices", "maps", "unicode", "unicode/utf8", "bytes",
 	"math", "math/bits", "errors", "cmp", "iter", "path", "internal/bytealg", "internal/stringslite",
 	"internal/itoa", "internal/byteorder", "encoding/hex", "container/list", "context",
-	"github.com/pingcap/errors", "github.com/go-zookeeper/zk",
+	"github.com/pingcap/errors", "github.com/go-zookeeper/zk", "github.com/go-sql-driver/mysql", "database/sql", "encoding/binary",
 }
 
 // packages whose whole initialiser runs; globals of every other package are
@@ -170,6 +170,34 @@ func (sh *Shared) buildIntrinsics() {
 		return args[1]
 	}
 	m[v+"NoopCancel"] = func(fr *frame, args []value) value { return nil }
+	m[v+"GTIDString"] = func(fr *frame, args []value) value {
+		switch b := args[0].(type) {
+		case uint64:
+			if b == 0 {
+				return ""
+			}
+			return fmt.Sprintf("g%x", b)
+		case sym:
+			return tokstr{b.t}
+		}
+		panic(engineError{"GTIDString"})
+	}
+	m[v+"GTIDBits"] = func(fr *frame, args []value) value {
+		switch s := args[0].(type) {
+		case tokstr:
+			return sym{types.Uint64, s.t}
+		case string:
+			if s == "" {
+				return uint64(0)
+			}
+			var u uint64
+			if _, err := fmt.Sscanf(s, "g%x", &u); err != nil {
+				panic(targetPanic{iface{t: types.Typ[types.String], v: "verifnd.GTIDBits: not a GTID token: " + s}, fr.pos(), fr.fn.String()})
+			}
+			return u
+		}
+		panic(engineError{"GTIDBits"})
+	}
 	m[v+"Symbolic"] = func(fr *frame, args []value) value { return true }
 	m[v+"Assume"] = func(fr *frame, args []value) value {
 		p := fr.i.path
@@ -596,6 +624,11 @@ func (fr *frame) hasMethod(t types.Type, name string) *ssa.Function {
 
 // render formats one argument for verb.
 func (fr *frame) render(a value, verb byte, strict bool) string {
+	return fr.renderD(a, verb, "%"+string(verb), strict)
+}
+
+// renderD formats one argument with the full directive (flags, width, precision).
+func (fr *frame) renderD(a value, verb byte, directive string, strict bool) string {
 	it, ok := a.(iface)
 	if !ok {
 		return toString(a)
@@ -628,17 +661,25 @@ func (fr *frame) render(a value, verb byte, strict bool) string {
 		if verb == 'q' {
 			return strconv.Quote(x)
 		}
+		if directive != "%"+string(verb) && (verb == 's' || verb == 'v') {
+			return fmt.Sprintf(strings.Replace(directive, "v", "s", 1), x)
+		}
 		return x
 	case sym:
 		if strict {
 			panic(engineError{"formatting a symbolic value into a string that may be inspected at " + fr.pos()})
 		}
 		return "<sym>"
+	case tokstr:
+		if strict {
+			panic(engineError{"formatting an opaque token string into a string that may be inspected at " + fr.pos()})
+		}
+		return "<token>"
 	case bool, int, int8, int16, int32, int64, uint, uint8, uint16, uint32, uint64, float32, float64:
 		if verb == 'T' {
 			return it.t.String()
 		}
-		return fmt.Sprintf("%"+string(verb), x)
+		return fmt.Sprintf(directive, x)
 	}
 	if verb == 'T' {
 		return it.t.String()
@@ -661,6 +702,7 @@ func (fr *frame) format(f string, args []value, lenient bool) (string, []iface) 
 			sb.WriteByte(c)
 			continue
 		}
+		dstart := i
 		i++
 		if i >= len(f) {
 			sb.WriteString("%!(NOVERB)")
@@ -684,13 +726,18 @@ func (fr *frame) format(f string, args []value, lenient bool) (string, []iface) 
 		}
 		a := args[ai]
 		ai++
+		directive := f[dstart : i+1]
 		if verb == 'w' {
 			if it, ok := a.(iface); ok {
 				wrapped = append(wrapped, it)
 			}
 			verb = 'v'
+			directive = "%v"
 		}
-		sb.WriteString(fr.render(a, verb, !lenient))
+		if strings.Contains(directive, "*") {
+			panic(engineError{"fmt: '*' width not modelled at " + fr.pos()})
+		}
+		sb.WriteString(fr.renderD(a, verb, directive, !lenient))
 	}
 	return sb.String(), wrapped
 }
